@@ -16,7 +16,7 @@ import vt, cexpr
 from vt import Infra
 from cexpr import CT, lit, leaves, render, const_text
 
-FAMS = ["bin", "un", "cast", "cond", "d2l", "d2r", "cc", "case", "enum"]
+FAMS = ["bin", "un", "cast", "cond", "d2l", "d2r", "cc", "case", "enum", "wrap0", "fcmp"]
 STRIDE = 96
 ROT = ["bool", "char", "uchar", "short", "ushort", "int", "uint", "long", "ulong", "enum"]
 WID = {"bool": 1, "char": 8, "uchar": 8, "short": 16, "ushort": 16, "int": 32, "uint": 32, "long": 64, "ulong": 64, "enum": 32}
@@ -62,7 +62,7 @@ def consumers(v):
         ex["l"] = [str(2 * val)]
     if 0 <= val <= 500:
         ex["d"] = [str(4 * (val + 1))]
-    if v["f"] == "cc":                # (T)(U)x: also `static T g = (U)x;` (implicit outer conversion)
+    if v["f"] in ("cc", "wrap0"):     # (T)(U)x, (T)(x op y): also `static T g = (U)x;` (implicit outer conversion)
         ex["i"] = [v["u"]]
     if pp_ok(v["e"]):
         ex["p"] = ["1" if val else "0"]
@@ -108,7 +108,48 @@ def enum_code(n, v):
     return "\n".join(top), "c%d();" % n, {"e": [u64(int(v["n"]))], "f": [u64(int(v["m"]))]}
 
 
+FSUF = {"float": ("f", "1e38f"), "double": ("", "1e308"), "ldouble": ("L", "1e4932L")}
+FTY = {"float": "float", "double": "double", "ldouble": "long double"}
+
+
+def fconst(tf, name):
+    """a floating constant expression of type tf for the named value of ExprGen.FV"""
+    s, big = FSUF[tf]
+    return {"nan": "(0.0%s/0.0%s)" % (s, s), "inf": "(%s*10)" % big, "ninf": "(-%s*10)" % big, "m1_5": "(-1.5%s)" % s,
+            "m0": "(-0.0%s)" % s, "p0": "0.0%s" % s, "p0_5": "0.5%s" % s, "p2": "2.0%s" % s, "big": "1e30%s" % s}[name]
+
+
+def fexpr(v, x, y):
+    op = v["op"]
+    if op == "toint":
+        return "((%s)%s)" % (CT[v["td"]], x)
+    if op == "cond":
+        return "(%s ? 1 : 2)" % x
+    if op == "lnot":
+        return "(!%s)" % x
+    return "(%s %s %s)" % (x, cexpr.OPS[op], y)
+
+
+def fcmp_code(n, v):
+    """family fcmp: floating operands of an operator with an integer result, folded and at run time"""
+    tf = v["tf"]
+    E = fexpr(v, fconst(tf, v["x"]), fconst(tf, v["y"]))
+    rk = ROT[n % len(ROT)]
+    val = int(v["s"])
+    top = ["static %s s%d = %s;" % ("long" if v["sg"] else "unsigned long", n, E),
+           "static %s t%d = %s;" % (CT[rk], n, E),
+           "static %s g%d_0 = %s;" % (FTY[tf], n, fconst(tf, v["x"])),
+           "static %s g%d_1 = %s;" % (FTY[tf], n, fconst(tf, v["y"]))]
+    body = ['printf("%d s %%lu\\n", (unsigned long)s%d);' % (n, n), 'printf("%d t %%lu\\n", (unsigned long)t%d);' % (n, n),
+            "P(%d, %s);" % (n, fexpr(v, "g%d_0" % n, "g%d_1" % n))]
+    top.append("static void c%d(void) { %s }" % (n, "\n ".join(body)))
+    return ("\n".join(top), "c%d();" % n,
+            {"s": [v["u"]], "t": [u64(conv(val, rk))], "v": [v["u"], str(v["sz"]), "1" if v["sg"] else "0"]})
+
+
 def desc(v):
+    if v["f"] == "fcmp":
+        return "%s %s" % (v["tf"], fexpr(v, v["x"], v["y"]))
     if v["f"] == "case":
         return "switch(%s=%s){%scase (%s)%s}" % (v["tc"], v["x"], "" if v["tn"] == "-" else "nested switch(%s); " % v["tn"], v["tl"], v["lv"])
     if v["f"] == "enum":
@@ -121,6 +162,8 @@ def case_code(n, v, only=None):
         return switch_code(n, v)
     if v["f"] == "enum":
         return enum_code(n, v)
+    if v["f"] == "fcmp":
+        return fcmp_code(n, v)
     e, val, t = v["e"], int(v["s"]), v["t"]
     E = const_text(e)
     ex = consumers(v)
@@ -190,6 +233,8 @@ def cls(v, tag, n, what):
         return "const:switch-label:%s:nested-%s:%s:%s" % (v["tc"], v["tn"], v["tl"], what)
     if v["f"] == "enum":
         return "const:enumerator-%s:%s:%s:%s" % (v["form"], v["op"], v["tc"], what)
+    if v["f"] == "fcmp":
+        return "const:%s:float-%s:%s(%s,%s):%s" % (NAMES.get(tag, tag), v["tf"], v["op"], v["x"], v["y"], what)
     extra = ""
     if tag == "t":
         extra = "-" + ROT[n % len(ROT)]
@@ -279,8 +324,8 @@ def run(ctx):
     ctx.phase("build done")
     cexpr.model_check(ctx, "ExprMC_quick.cfg" if q else "ExprMC.cfg",
                       "eval2/is_const_expr (ConstEval) does not compute the C11 value or type of a constant expression",
-                      ["ConstInv", "CaseInv", "EnumInv"], workers=12 if q else 16, sensitivity=False,
-                      Shapes='{"bin","un","cast","cond","cc","case","enum","d2l","d2r","d2u"}')
+                      ["ConstInv", "CaseInv", "EnumInv", "FltInv"], workers=12 if q else 16, sensitivity=False,
+                      Shapes='{"bin","un","cast","cond","cc","case","enum","fcmp","d2l","d2r","d2u"}')
     # sensitivity control: the pinned folder (cast arm typed uint32_t, no re-wrapping) must be rejected
     c2 = ctx.cfg("expr", "ExprMC_quick.cfg", FIX_D10=False, Shapes='{"un","cast"}')
     t2 = re.sub(r"(?m)^INVARIANTS .*$", "INVARIANTS ConstInv", open(c2).read())
@@ -293,7 +338,7 @@ def run(ctx):
     dz = [v for v in vec if v["dz"]]
     vec = [v for v in vec if not v["dz"]]
     for v in vec[:: max(1, len(vec) // 3)][:3]:
-        if v["f"] in ("case", "enum"):
+        if v["f"] in ("case", "enum", "fcmp"):
             ctx.sample(dict(kind=v["f"], what=desc(v)))
         else:
             ctx.sample(dict(kind="constant expression", expr=const_text(v["e"]), type=v["t"], value=v["s"],
